@@ -29,6 +29,17 @@ def make_explorer(contract_modules, **kw):
                     if isinstance(d, ast.Call) and getattr(d.func, 'id', '') == 'invariant':
                         invariants[ast.literal_eval(d.args[0])] = f
     ex = Explorer(index, contracts, invariants, **kw)
+    # external models: a spec module may map dotted external names to model functions of that module
+    #   EXTERNAL_MODELS = {'gmpy2.get_exp': 'gmp_get_exp', ...}
+    # a call of the external is then a call of the model function (which may carry a trusted contract)
+    from .values import FuncV
+    for fn in sorted(os.listdir(specdir)):
+        if fn.endswith('.py') and fn != '__init__.py':
+            mi = index.module('spec.' + fn[:-3])
+            if 'EXTERNAL_MODELS' in mi.assigns:
+                for ext, fname in ast.literal_eval(mi.assigns['EXTERNAL_MODELS']).items():
+                    info = mi.functions[fname]
+                    ex.externals[ext] = (lambda info: lambda P, args, kwargs: P.call_function(FuncV(info), list(args), dict(kwargs)))(info)
     return ex
 
 
